@@ -81,6 +81,7 @@ def discover():
                         "assumes": meta.get("assume", []),
                         "stubs": stubs,
                         "timeout": int(meta.get("timeout", ["300"])[0]),
+                        "jobs": int(meta.get("jobs", ["16"])[0]),
                         "expect": meta.get("expect", ["pass"])[0],
                     }
                     out.append(h)
